@@ -26,8 +26,8 @@ KNOWN_CLASSES = {"F3": 0, "F4": 1, "F5": 2}
 def gen_cases(ctx):
     out = [("corpus", S.corpus_expr(l)) for l in S.load_corpus("C03")]
     q = ctx.tier == "quick"
-    out += S.expr_cases(ctx, 3000 if q else 60000, 3000 if q else 60000, 1500 if q else 30000,
-                        1500 if q else 30000, 1000 if q else 20000)
+    out += S.expr_cases(ctx, 3000 if q else 300000, 3000 if q else 300000, 1500 if q else 150000,
+                        1500 if q else 150000, 1000 if q else 100000)
     if not q:
         for seq in G.all_token_seqs(3):
             out.append(("exh", " ".join(seq)))
